@@ -137,6 +137,7 @@ def _pairs(rng, n):
     a[5 * k:5 * k + 3] = 0.0; b[5 * k:5 * k + 3] = 0.0
     a[5 * k + 3:5 * k + 9] = -0.0; b[5 * k + 6:5 * k + 12] = -0.0          # negative zeros (alone and paired with finite slopes)
     b[6 * k:7 * k] = -a[6 * k:7 * k]                # exactly opposite
+    b[7 * k:8 * k] = a[7 * k:8 * k] * (1.0 + rng.choice([-1.0, 1.0], k) * 10 ** rng.uniform(-15, -3, k))    # nearly equal (ratio 1 +- 1e-15...1e-3)
     perm = rng.permutation(n)
     return a[perm], b[perm]
 
